@@ -132,8 +132,72 @@ EQUINOX_OFFSETS = [0.0, 0.5, -0.5, 1.0, -1.0, 3.0, -3.0,
                    0.001, -0.001, 0.005, -0.005, 0.02, -0.02]
 
 
+def check_mean_equinox(j):
+    """rectangular_coordinates_mean_equinox against the harness's own rotation of the geometric geocentric
+    position by the mean obliquity."""
+    e = Epoch(j)
+    try:
+        x, y, z = Sun.rectangular_coordinates_mean_equinox(e)
+        lon, lat, r = Sun.geometric_geocentric_position(e)
+        eps = mean_obliquity(e).rad()
+    except Exception as ex:
+        return [("exception", "mean-equinox rectangular coordinates at JDE %r raised %r" % (j, ex), None)]
+    ll, b = lon.rad(), lat.rad()
+    X = (r * math.cos(b) * math.cos(ll),
+         r * (math.cos(b) * math.sin(ll) * math.cos(eps) - math.sin(b) * math.sin(eps)),
+         r * (math.cos(b) * math.sin(ll) * math.sin(eps) + math.sin(b) * math.cos(eps)))
+    d = dist3(X, (x, y, z))
+    if d > 1e-9:
+        return [("mean_equinox_rotation", "rectangular_coordinates_mean_equinox = %r, the geocentric position (%r, %r, %r) "
+                 "turned by the mean obliquity is %r (%.3g AU) at JDE %r" % ((x, y, z), lon._deg, lat._deg, r, X, d, j), d)]
+    return []
+
+
+def sun_latitude_zero_cases(tier):
+    return [(y, q) for y in ((-1990, -1000, 0, 1000, 2000, 3000, 3990) if tier == "thorough" else (-1990, 2000, 3990))
+            for q in range(8)]
+
+
+def run_sun_latitude_zeros(spec, ctx):
+    """spec = (year, eighth of the year): the Sun's geometric latitude (|b| < 1.2 arcsec) is scanned day by day,
+    every sign change narrowed to adjacent doubles, and the mean-equinox coordinates checked there and 10 s, 1 min,
+    2 min, 10 min around - where a 'Sun on the ecliptic' shortcut would be taken."""
+    y, q = spec
+    j = J2000 + (y - 2000.0) * 365.25 + q * 45.7
+    end = j + 45.7
+    f = lambda t: Sun.geometric_geocentric_position(Epoch(t))[1]._deg
+    prev = f(j)
+    found = 0
+    while j < end:
+        j2 = j + 1.0
+        cur = f(j2)
+        ctx.evals += 1
+        if (prev > 0.0) != (cur > 0.0):
+            lo, hi, slo = j, j2, prev > 0.0
+            while True:
+                mid = lo + (hi - lo) / 2.0
+                if mid <= lo or mid >= hi:
+                    break
+                ctx.evals += 1
+                if (f(mid) > 0.0) == slo:
+                    lo = mid
+                else:
+                    hi = mid
+            found += 1
+            for t in [lo, hi] + [hi + d / 86400.0 for d in (-600.0, -120.0, -60.0, -10.0, -1.0, 1.0, 10.0, 60.0, 120.0, 600.0)]:
+                ctx.evals += 1
+                ctx.nt_count += 1
+                for site, msg, dev in check_mean_equinox(t):
+                    ctx.viol({"jde": t}, msg, dev=dev, site="latitude_zero_" + site)
+        j, prev = j2, cur
+    ctx.count("sun_latitude_zero_crossings", found)
+    ctx.outcome((y, found))
+    ctx.obs(y, q, found)
+    ctx.sample({"year": y, "eighth": q, "crossings": found})
+
+
 def check_frames(j):
-    out = []
+    out = check_mean_equinox(j)
     e = Epoch(j)
     try:
         x, y, z = Sun.rectangular_coordinates_mean_equinox(e)
@@ -333,6 +397,75 @@ def run_forms(block, ctx):
     ctx.sample(block[0])
 
 
+# -- ordered pairs of calls in date form: a call must not be answered from another date's call -----------------
+
+PAIR_YEARS = [-5, -4, -3, -2, -1, 0, 1, 2, 3, 4, 5, 99, 100, 1582, 1999, 2000, 2001, 2999, 3000]
+PAIR_FUNCS = ["mean_obliquity", "true_obliquity", "nutation_longitude", "nutation_obliquity"]
+PAIR_FORMS = ["ymd", "tuple", "epoch"]
+
+
+def _pair_call(fname, form, y, md):
+    f = {"mean_obliquity": mean_obliquity, "true_obliquity": true_obliquity, "nutation_longitude": nutation_longitude,
+         "nutation_obliquity": nutation_obliquity}[fname]
+    m, d = md
+    if form == "ymd":
+        return f(y, m, d)._deg
+    if form == "tuple":
+        return f((y, m, d))._deg
+    return f(Epoch(y, m, d))._deg
+
+
+def check_call_pairs(case):
+    """case = function, form, (month, day): for every first year of the alphabet, in ONE freshly forked process the
+    function is called for the first year and then for every other year (first year again in between); every answer
+    is compared with the answer a freshly forked process gives to that call alone."""
+    from .c20 import run_in_fork
+    fname, form, md = case["function"], case["form"], tuple(case["md"])
+    out = []
+    base = {}
+    for y in PAIR_YEARS:
+        kind, v = run_in_fork(lambda y=y: _pair_call(fname, form, y, md))
+        if kind != "ok":
+            return [("exception", "%s(%s form of %r) alone raised %s" % (fname, form, (y,) + md, v), None)]
+        base[y] = v
+    for y1 in case.get("first_years") or PAIR_YEARS:
+        others = [y for y in PAIR_YEARS if y != y1]
+
+        def chain():
+            res = []
+            for y in others:
+                _pair_call(fname, form, y1, md)
+                res.append(_pair_call(fname, form, y, md))
+            return res
+        kind, got = run_in_fork(chain)
+        if kind != "ok":
+            out.append(("exception", "%s chain after year %r raised %s" % (fname, y1, got), None))
+            continue
+        for y, g in zip(others, got):
+            if g != base[y]:
+                out.append(("call_pair", "%s(%s form of %r) right after the same call for year %r = %r deg, alone it "
+                            "gives %r" % (fname, form, (y,) + md, y1, g, base[y]), abs(g - base[y])))
+    return out
+
+
+def call_pair_cases():
+    return [{"function": fn, "form": fm, "md": list(md)} for fn in PAIR_FUNCS for fm in PAIR_FORMS
+            for md in ((1, 1.0), (6, 15.5))]
+
+
+def run_call_pairs(block, ctx):
+    for case in block:
+        ctx.evals += len(PAIR_YEARS) * (2 * len(PAIR_YEARS) - 1)
+        ctx.traces += len(PAIR_YEARS)
+        ctx.nt_count += len(PAIR_YEARS) * (len(PAIR_YEARS) - 1)
+        for site, msg, dev in check_call_pairs(case):
+            ctx.viol(case, msg, dev=dev, site=site)
+        ctx.outcome((case["function"], case["form"]))
+    ctx.obs(block[0]["function"], block[0]["form"])
+    if block[0]["form"] == "ymd" and block[0]["md"][0] == 1:
+        ctx.sample(dict(block[0], first_years=[-1]))
+
+
 # -- the Sun crossing 0 / 90 / 180 / 270 degrees: minutes around every equinox and solstice ---------------
 
 SEASON_YEARS = [-990, -1, 1000, 1582, 1800, 1803, 1899, 1962, 1992, 2000, 2024, 2100, 2199, 2990]
@@ -403,6 +536,10 @@ def clauses(tier):
                lambda c: [m for _, m, _ in check_reflection(c["jde"]) + check_obliquity(c["jde"])], floor=100),
         Clause("frames", chunks(frames, 32), run_frames, lambda c: [r_[1] for r_ in check_frames(c["jde"])],
                floor=100),
+        Clause("sun_latitude_zeros", sun_latitude_zero_cases(tier), run_sun_latitude_zeros,
+               lambda c: [m for _, m, _ in check_mean_equinox(c["jde"])], floor=300),
+        Clause("call_pairs", chunks(call_pair_cases(), 24), run_call_pairs,
+               lambda c: [m for _, m, _ in check_call_pairs(c)], floor=400, shape="H"),
         Clause("coarse_sun", chunks(coarse, 16), run_coarse, lambda c: [m for _, m, _ in check_coarse(c["jde"])],
                floor=100),
         Clause("season_seams", chunks(season_cases(), 16), run_season_seam,
